@@ -344,7 +344,7 @@ pub fn run_builder2<K: Fam>(calls: &[BCall], first: Option<&K>, key: &K) -> Resu
 pub fn decoded_init_bytes(fam: FamId, secret: &[u8; 32], seq: u64, pairs: &[(Vec<u8>, Vec<u8>)]) -> Vec<u8> {
     let mut m: std::collections::BTreeMap<Vec<u8>, Vec<u8>> = pairs.iter().cloned().collect();
     m.insert(b"id".to_vec(), rlp::encode_str(b"v4"));
-    m.insert(fam.scheme().key_name().to_vec(), rlp::encode_str(&fam.ref_pk(secret)));
+    m.insert(fam.key_name().to_vec(), rlp::encode_str(&fam.ref_pk(secret)));
     let pairs: Vec<(Vec<u8>, Vec<u8>)> = m.into_iter().collect();
     let content = record::content_from_fields(seq, &pairs);
     let sig = keys::ref_sign(fam, secret, &content, seq % 2 == 1);
@@ -541,5 +541,6 @@ pub fn run_history<V: Visitor>(h: &History, force_fault: bool, v: &mut V) -> Res
         FamId::Ed => go!(ed25519_dalek::SigningKey),
         FamId::CombinedSecp | FamId::CombinedEd => go!(enr::CombinedKey),
         FamId::Var | FamId::Wide => go!(VarKey),
+        FamId::Tiny => go!(crate::keys::TinyKey),
     }
 }
